@@ -396,6 +396,12 @@ impl<'a, 'tcx> Dumper<'a, 'tcx> {
                 k!("const");
                 let owner = self.owner.to_def_id();
                 o.push(("callee", callee_facts(self.cx, owner, *def_id, args)));
+                // value of non-generic constants of other crates (e.g. opcodes), as rustc evaluates them
+                if !def_id.is_local() && args.is_empty() {
+                    if let Some(v) = crate::eval_const_cached(self.cx, *def_id) {
+                        o.push(("value", J::s(v)));
+                    }
+                }
             }
             ExprKind::ConstParam { def_id, .. } => {
                 k!("const_param");
@@ -404,6 +410,11 @@ impl<'a, 'tcx> Dumper<'a, 'tcx> {
             ExprKind::StaticRef { def_id, .. } => {
                 k!("static");
                 o.push(("def", J::s(self.cx.path(*def_id))));
+                if let Some(v) = crate::eval_static_pub(self.cx.tcx, *def_id) {
+                    o.push(("value", J::s(v)));
+                }
+                let sty = self.cx.tcx.type_of(*def_id).instantiate_identity().skip_norm_wip();
+                o.push(("static_ty", J::s(crate::ty_str(self.cx.tcx, sty))));
             }
             ExprKind::InlineAsm(_) => {
                 k!("asm");
